@@ -11,7 +11,7 @@
    PARTIAL: isotherm uploads WITH auto-insert of the material / adsorbate read the per-process registries (refuted items below; their
    steps are judged inside Coq at run time, Db/DbShow.v spec_verdict); the isotherm PROPERTY types have no table at all (refuted item). *)
 From Coq Require Import ZArith List Bool.
-From PG Require Import Db.DbModel Db.DbSpec Db.DbRefine Db.DbInv Db.DbRefine2 Db.DbRefine3 Db.DbRefine4 Db.DbBatch Db.DbAtomic Db.DbPy Db.DbConn Db.DbPyProofs.
+From PG Require Import Db.DbModel Db.DbSpec Db.DbRefine Db.DbInv Db.DbRefine2 Db.DbRefine3 Db.DbRefine4 Db.DbBatch Db.DbAtomic Db.DbPy Db.DbConn Db.DbPyProofs Db.DbConvIso.
 Import ListNotations.
 Open Scope Z_scope.
 
@@ -169,6 +169,19 @@ Theorem isotherm_upload_refines_dictionary : forall x d r, wf d -> temp_plain (n
   | None => DbRefine2.oc_of (run_op (IsoUp x false false) d r) = OParsing /\ DbInv.db_after (run_op (IsoUp x false false) d r) = d end.
 Proof. exact iso_upload_plain_refines. Qed.
 Print Assumptions isotherm_upload_refines_dictionary.
+(* ---- what an isotherm property comes back as, by kind of value (Db/DbConvIso.v).  Text comes back as the same text - whatever it looks like
+   ('true', 'False', 'None', 'nan', '0x10' ... are atoms other than the two storage tokens of booleans) - EXACTLY when it is not one of the two
+   tokens 'TRUE' / 'FALSE'; numeric-looking text (VNumText, finding C08-F3) is not covered by this statement *)
+Theorem isotherm_text_property_comes_back_verbatim_iff : forall t, conv_iso (VText t) = VText t <-> (t <> A_TRUE /\ t <> A_FALSE).
+Proof. exact conv_iso_text_iff. Qed.
+Print Assumptions isotherm_text_property_comes_back_verbatim_iff.
+Theorem isotherm_bool_property_comes_back_as_bool : forall b, conv_iso (VBool b) = VBool b.
+Proof. exact conv_iso_bool. Qed.
+Print Assumptions isotherm_bool_property_comes_back_as_bool.
+(* finding C08-F8: the text 'TRUE' is stored verbatim and read back as the boolean *)
+Theorem isotherm_text_property_roundtrip_refuted : exists t, conv_iso (VText t) <> VText t /\ conv_iso (VText t) = VBool true.
+Proof. exact conv_iso_booltoken_refuted. Qed.
+Print Assumptions isotherm_text_property_roundtrip_refuted.
 (* every write operation except auto-inserting isotherm uploads and the table-less isotherm property types *)
 Theorem operation_refines_dictionary_partial : forall o d r, wf d -> refined_write o || plain_iso_upload o = true ->
   abs (DbInv.db_after (run_op o d r)) = snd (dict_step o (abs d))
